@@ -14,6 +14,7 @@ import vcommon as V
 sys.path.insert(0, os.path.dirname(os.path.abspath(__file__)))
 import c10lib as L
 import table as T
+import guardscan as G
 
 PROP = "coq/C10/Properties_C10.v"
 HOST_BYTES = 3 << 30
@@ -49,7 +50,7 @@ def value_class(v):
         return "non-numeric"
 
 
-KIND_OF = {"colvaroff1": "colvar", "colvarrof0": "colvar", "opesad": "opes", "metanogrid": "meta"}
+KIND_OF = {"colvaroff1": "colvar", "colvarrof0": "colvar", "opesad": "opes", "metanogrid": "meta", "opesrep": "opes", "opesreprof0": "opes"}
 
 
 def find_block(root, path):
@@ -94,7 +95,36 @@ def model_line(entry, value):
     f[var] = value
     if kind == "gridkw":
         return grid_model_line([(f["lower"], f["upper"], f["width"])], cw=0)
+    if kind == "scripted-always-rejected":
+        kind = "scripted"
+    if kind == "nnet":
+        return "bias rof=3"        # placeholder line: this entry's expectation is computed in python_model()
     return kind + " " + " ".join("%s=%s" % (k, v) for k, v in sorted(f.items()))
+
+
+def python_model(entry, value, mo):
+    """entries whose expected verdict is not (only) the extracted model's"""
+    kind, fields, var = T.MODEL[entry[0]]
+    if kind == "scripted-always-rejected":
+        # the size is validated (model), then the simulator rejects scripted functions anyway
+        return "reject " + " ".join(mo.split()[1:])
+    if kind == "nnet":
+        ok = re.fullmatch(r"\d+", value) is not None and int(value) < int(fields["outputs"])
+        return ("accept" if ok else "reject") + " initsafe=1 stepsafe=1"
+    return mo
+
+
+def guard_lists():
+    """(file, keyword) pairs of guard_covered / guard_exempt, read from coq/C10/GuardModel.v (single source)"""
+    txt = open(os.path.join(V.COQ, "C10", "GuardModel.v")).read()
+    def lst(name):
+        m = re.search(r"Definition %s[^\[]*\[(.*?)\]\." % name, txt, re.S)
+        return set(re.findall(r'\("([^"]+)",\s*"([^"]+)",', m.group(1))) if m else set()
+    return lst("guard_covered"), lst("guard_exempt")
+
+
+def presetup():
+    G.write_gen(G.scan(os.path.join(V.REPO, "src"), os.path.join(V.BUILD, "scratch")), V.COQ)
 
 
 def grid_model_line(dims, cw=1, mult=1, elt=8):
@@ -119,6 +149,23 @@ def check(run):
         "real-valued parameters are exact rationals in the model and doubles in the C++: the generated boundaries and widths are dyadic or far (>= 2^10 x) from every threshold",
         "allocation: the model is parameterised by the bytes the host grants in one request (3 GiB = the address-space limit of the plain runs); cases within a factor 64 of that limit are skipped as boundary-ambiguous",
     ]
+    # ---- completeness of the guard table with respect to the current source tree (static harvest)
+    recs = G.scan(os.path.join(V.REPO, "src"), os.path.join(V.BUILD, "scratch"))
+    G.write_gen(recs, V.COQ)
+    covered, exempt = guard_lists()
+    run.cov["correspondence"]["guard_keywords_found_in_source"] = len(recs)
+    run.cov["correspondence"]["guard_keywords_covered_by_model"] = len([r for r in recs if (r["file"], r["keyword"]) in covered])
+    for rec in recs:
+        key = (rec["file"], rec["keyword"])
+        run.count(("guardscan",) + key, key in covered)
+        run.dist("guardscan:" + ("covered" if key in covered else "exempt" if key in exempt else "UNCOVERED"))
+        if key not in covered and key not in exempt:
+            u = rec["uses"][0]
+            run.violation("guards:uncovered:%s:%s" % key,
+                          "keyword %s of %s (destination %s, %s) is used as %s at %s:%d `%s` but is neither in the guard table of GuardModel.v nor "
+                          "exempted with a reason: the validation of this quantity is not modelled" % (
+                              rec["keyword"], rec["file"], rec["dest"], rec["type"], "/".join(G.kinds(rec)), u[1], u[2], u[3]),
+                          {"kind": "guardscan", "record": rec}, found_input=False)
     st = V.standard_start(run, PROP, "coq/C10/Extract_C10.v", "props/C10/driver.ml",
                           {"c10sim": ["props/C10/unit.cpp"]}, extra_ml=())
     if st is None:
@@ -173,7 +220,10 @@ def check(run):
     extra_cases = [("module.colvarsTrajFrequency", "2305843009213693952"), ("colvaroff1.corrFuncLength", "-1"),
                    ("colvar.corrFuncLength", "2147483647"), ("colvarrof0.corrFuncStride", "2147483647"),
                    ("colvar.corrFuncOffset", "-1"), ("meta.gridsUpdateFrequency", "0"), ("meta.newHillFrequency", "0"),
-                   ("histrestr.upperBoundary", "2147483647"), ("histrestr.upperBoundary", "2000000000"), ("histrestr.width", "1e-300"), ("opes.colvarsRestartFrequency", "0")]
+                   ("histrestr.upperBoundary", "2147483647"), ("histrestr.upperBoundary", "2000000000"), ("histrestr.width", "1e-300"), ("opes.colvarsRestartFrequency", "0"),
+                   ("colvar.scriptedFunctionVectorSize", "-1"), ("colvar.scriptedFunctionVectorSize", "2147483647"),
+                   ("opesrep.sharedFreq", "0"), ("opesreprof0.sharedFreq", "-"), ("nnet.output_component", "5"),
+                   ("nnet.output_component", "100000000"), ("colvar.corrFuncLength", "1000000000")]
     cases = []
     for e in T.ENTRIES:
         for v in values:
@@ -186,10 +236,15 @@ def check(run):
     scen = {}
     for e, v in cases:
         root = L.parse_config(e[1])
-        txt = L.mutate(root, find_block(root, e[2]), e[3], v)
+        txt = e[1] if v == "-" else L.mutate(root, find_block(root, e[2]), e[3], v)
         sc = T.scenario(txt, e[4])
         scen[(e[0], v)] = sc
         for var in variants:
+            if len(e) > 5:
+                wd = os.path.join(W, "t", var, e[0], re.sub(r"[^A-Za-z0-9.+-]", "_", v))
+                os.makedirs(wd, exist_ok=True)
+                for fn, content in e[5].items():
+                    open(os.path.join(wd, fn), "w").write(content)
             if var == "asan" and quick and (e, v) not in [(T.BY_ID[a], b) for a, b in extra_cases]:
                 # quick tier: the sanitizer build runs a seed-dependent third of the table
                 if r.random() > 0.2:
@@ -202,7 +257,7 @@ def check(run):
         run.violation("tie:model-run", "the model driver answered %d of %d lines: %s" % (len(mout), len(mlines), merr[-300:]),
                       {"kind": "model"}, found_input=False)
         return
-    mres = dict(((e[0], v), o) for (e, v), o in zip(cases, mout))
+    mres = dict(((e[0], v), python_model(e, v, o)) for (e, v), o in zip(cases, mout))
     res = L.run_many(jobs)
     n_dead = 0
     for (eid, v, var), rr in sorted(res.items()):
@@ -315,6 +370,57 @@ def check(run):
                           {"kind": "scenario", "scenario": c["scenario"]})
     run.notes.append("after rollback sweep: %.1f s" % (time.time() - t_start))
     run.sample({"rollback_case": rcases[0]["model"], "model": rout[0] if rout else None})
+
+    # ------------------------------------------------------------------ 3b. structural cases of the property text
+    jobs = []
+    for k, (label, conf, expect) in enumerate(T.STRUCTURAL):
+        late = 2 if k % 3 == 2 else 0
+        sc = T.scenario(conf, 3, nsteps=5, late=late)
+        for var in variants:
+            if var == "asan" and quick and not label.startswith("group:") and k % 4 != run.seed % 4:
+                continue          # (the atom-group cases always run under the sanitizers: their failures are out-of-bounds reads)
+            jobs.append(((k, var), plain if var == "plain" else asan, sc, os.path.join(W, "x", var, str(k)), var, 20 if var == "plain" else 60))
+    sres = L.run_many(jobs)
+    for (k, var), rr in sorted(sres.items()):
+        label, conf, expect = T.STRUCTURAL[k]
+        sc = [j for j in jobs if j[0] == (k, var)][0][2]
+        lc = last_config(rr)
+        impl = rr["cls"] if rr["cls"] != "ok" else ("accept" if lc and lc[0] == "ok" else "reject")
+        run.count(("structural", label, var), impl != "accept")
+        run.dist("structural:%s" % (impl if impl in ("accept", "reject") else "died"))
+        if rr.get("skipped"):
+            continue
+        if rr["cls"] != "ok":
+            report_death("structural", label.split(":")[0], label, var, rr, sc, vclass=label.split(":", 1)[1])
+            continue
+        if impl == "reject":
+            check_survivors("structural", label, "-", var, rr, sc)
+        if expect is not None and impl != expect:
+            run.mismatch("structural:" + label, conf, impl, expect)
+    run.sample({"structural_case": T.STRUCTURAL[0][0], "impl": sres[(0, "plain")]["cls"]})
+
+    # ------------------------------------------------------------------ 3c. two walkers: the second one adds no hills
+    wd = os.path.join(W, "walkers")
+    os.makedirs(wd, exist_ok=True)
+    def walker(rid, nh):
+        conf = T.cv("x", 1, T.GRIDCV) + ("metadynamics {\n  name m\n  colvars x\n  hillWeight 0.1\n  hillWidth 2\n  newHillFrequency %s\n"
+                                         "  multipleReplicas on\n  replicaID %s\n  replicasRegistry %s/reg.txt\n  replicaUpdateFrequency 2\n}\n" % (nh, rid, wd))
+        sc = T.scenario(conf, 3, nsteps=6, base=False).replace("prefix out\n", "prefix\n")
+        i = sc.index("objs\n") + 5
+        return sc[:i] + "outprefix out_%s\n" % rid + sc[i:]
+    ra = L.run_scenario(plain, walker("a", "2"), wd, "plain", 30)
+    rb = L.run_scenario(plain, walker("b", "0"), wd, "plain", 30)
+    mlw = "meta rof=3 newhill=0 replicas=on upfreq=2"
+    rc, mw, _e = V.run_lines(model, [mlw])
+    run.count(("walkers", "newHillFrequency-0"), True)
+    run.dist("walkers:%s" % rb["cls"])
+    if ra["cls"] != "ok":
+        report_death("meta", "replicas", "2", "plain", ra, walker("a", "2"), vclass="first-walker")
+    if rb["cls"] != "ok":
+        report_death("meta", "replicas-newHillFrequency", "0", "plain", rb, walker("b", "0"), " (a second walker next to walker a; model: %s)" % (mw[0] if mw else "?"))
+        run.mismatch("table:meta.replicas", "walker b with newHillFrequency 0 next to walker a", rb["cls"], mw[0] if mw else "?")
+    elif mw and not mw[0].startswith("accept initsafe=1 stepsafe=1"):
+        run.mismatch("table:meta.replicas", mlw, "accept", mw[0])
 
     # ------------------------------------------------------------------ 4. search: harvested keywords
     budget = 35 if quick else 600
@@ -429,9 +535,10 @@ def gen_rollback_case(r, k):
     model = "rollback have_cv=zz0,g0 have_bias=hh0:harmonic cvs=%s biases=%s" % (",".join(cvs) or "-", ";".join(groups) or "-")
     # NOTE harmonic with forceConstant 0 / hills of weight 0 -> the new biases do not change the forces on zz0 ... they
     # are on other variables anyway (g0 is a second base variable on atom 3)
-    sc = T.scenario(conf + bias_txt, 3, nsteps=4, base2=True)
+    late = 2 if k % 2 else 0          # every other case supplies the configuration at run time, after two steps
+    sc = T.scenario(conf + bias_txt, 3, nsteps=4, base2=True, late=late)
     nfail = sum(1 for c in cvs if c.endswith(":1")) + sum(1 for (_, _, f) in items if f)
-    return {"model": model, "scenario": sc, "nfail": nfail, "shape": "%dcv-%db-%df" % (ncv, nb, nfail), "failing_names": failing}
+    return {"model": model, "scenario": sc, "nfail": nfail, "shape": "%dcv-%db-%df%s" % (ncv, nb, nfail, "-late" if late else ""), "failing_names": failing}
 
 
 # ------------------------------------------------------------------------------------------------
